@@ -6,12 +6,18 @@ HERE = os.path.dirname(os.path.dirname(os.path.abspath(__file__)))
 REPO = os.environ.get('HEPH_REPO', '/repo')
 sys.path.insert(0, HERE)
 
+from props import _identity  # noqa: E402
+
 ID = 'C04'
+# modules whose functions must not keep state between calls (pyvc.statecheck.hidden_state_census, syntactic)
+HIDDEN_STATE_MODULES = ['src.transformations.type_overwriting', 'src.transformations.base']
 LEVEL = 'proof'
 SIDECARS = ['types_sub', 'types_ctor', 'mutations']
 FUNCTIONS = [
     'src.transformations.type_overwriting.TypeOverwriting.visit_func_decl',
 ]
+SIDECARS = SIDECARS + [x for x in _identity.SIDECARS if x not in SIDECARS]
+FUNCTIONS = FUNCTIONS + [f for f in _identity.FUNCTIONS if f not in FUNCTIONS]
 TRUSTED = [
     'slice mode (DESIGN 2.7) for TypeOverwriting.visit_func_decl: statements outside the subset are havocked (the branch that '
     'overwrites a type argument of an instantiation is abstracted as a whole); obligations sit at the attribute stores',
